@@ -323,8 +323,10 @@ pub fn par_each<T: Sync>(items: &[T], threads: usize, f: impl Fn(&T, &mut Report
     let threads = threads.max(1).min(items.len().max(1));
     let mut total = Report::default();
     if threads == 1 {
-        for it in items {
-            f(it, &mut total);
+        for (i, it) in items.iter().enumerate() {
+            if let Err(p) = catch(|| f(it, &mut total)) {
+                escaped_panic(&mut total, &format!("while exploring item #{i}"), &p);
+            }
         }
         return total;
     }
@@ -339,9 +341,7 @@ pub fn par_each<T: Sync>(items: &[T], threads: usize, f: impl Fn(&T, &mut Report
                 while i < items.len() {
                     // a panic escaping an engine's own catch() is a hole in the harness: report it as such
                     if let Err(p) = catch(|| f(&items[i], &mut r)) {
-                        if r.machinery_errors.len() < 5 {
-                            r.machinery_errors.push(format!("uncaught panic while exploring item #{i}: {p}"));
-                        }
+                        escaped_panic(&mut r, &format!("while exploring item #{i}"), &p);
                     }
                     i += threads;
                 }
@@ -368,10 +368,34 @@ pub fn n_threads(tier: Tier) -> usize {
 
 // ---------------------------------------------------------------- panics
 
+thread_local! {
+    /// source location of the most recent panic on this thread (set by the panic hook)
+    pub static LAST_PANIC_LOC: std::cell::RefCell<String> = const { std::cell::RefCell::new(String::new()) };
+}
+
+/// A panic escaped an engine's own catch(): the engine called konst where its reference model defines an ordinary
+/// result for every explored case.  If the panic was raised inside konst's sources that is a wrong behaviour of the
+/// code under test (verdict); if it was raised by the harness itself it is a hole in the harness (machinery).
+pub fn escaped_panic(rep: &mut Report, ctx: &str, msg: &str) {
+    let loc = LAST_PANIC_LOC.with(|c| c.borrow().clone());
+    let in_konst = loc.contains("/konst/src/") || loc.contains("/konst_kernel/src/") || loc.contains("/konst_proc_macros/src/");
+    if in_konst {
+        rep.violation(viol("escaped-panic", "engine", String::new(), format!("{ctx}: konst panicked where the reference model defines a result"), "no panic".into(), format!("panic at {loc}: {msg}")));
+    } else if rep.machinery_errors.len() < 5 {
+        rep.machinery_errors.push(format!("uncaught panic {ctx} at {loc}: {msg}"));
+    }
+}
+
 pub fn silence_panics() {
     // ordinary (unwinding) panics are expected outcomes and are caught by catch(); a panic that cannot unwind
     // (std's "unsafe precondition(s) violated" checks, panics in no-unwind contexts) aborts the process: say why.
-    std::panic::set_hook(Box::new(|info| {
+    let show = std::env::var("VERIF_SHOW_PANICS").is_ok(); // debugging aid: print every panic with its location
+    std::panic::set_hook(Box::new(move |info| {
+        if show {
+            eprintln!("panic: {info}");
+        }
+        let loc = info.location().map(|l| format!("{}:{}", l.file(), l.line())).unwrap_or_default();
+        LAST_PANIC_LOC.with(|c| *c.borrow_mut() = loc);
         if let Some(m) = info.payload_as_str() {
             if m.contains("unsafe precondition") || m.contains("cannot unwind") || m.contains("non-unwinding") {
                 eprintln!("NON-UNWINDING PANIC (process will abort): {m}");
@@ -380,8 +404,98 @@ pub fn silence_panics() {
     }));
 }
 
+// ---------------------------------------------------------------- watchdog (calls that never return)
+
+const WD_SLOTS: usize = 256;
+static WD_NEXT: std::sync::atomic::AtomicUsize = std::sync::atomic::AtomicUsize::new(0);
+/// per thread (one cache line each): number of catch() entries + exits so far, current nesting depth, call site of the last entry
+#[repr(align(128))]
+struct WdSlot {
+    seq: std::sync::atomic::AtomicU64,
+    depth: std::sync::atomic::AtomicU64,
+    site: std::sync::atomic::AtomicUsize,
+}
+static WD: [WdSlot; WD_SLOTS] = [const { WdSlot { seq: std::sync::atomic::AtomicU64::new(0), depth: std::sync::atomic::AtomicU64::new(0), site: std::sync::atomic::AtomicUsize::new(0) } }; WD_SLOTS];
+thread_local! {
+    static WD_SLOT: usize = WD_NEXT.fetch_add(1, std::sync::atomic::Ordering::Relaxed) % WD_SLOTS;
+    /// (address of the last call site seen on this thread, its interned id)
+    static WD_LAST_SITE: std::cell::Cell<(usize, usize)> = const { std::cell::Cell::new((0, 0)) };
+}
+
+/// Every call into konst runs inside catch(); a thread that sits inside one catch() without entering or leaving
+/// another for `limit` seconds is executing a call that does not return (the explored inputs are tiny: a call takes
+/// microseconds).  The watchdog names the call site and ends the process with status 3; the driver turns that into a
+/// verdict ("does not terminate"), not into a machinery failure.  Not used under the interpreter.
+pub fn start_watchdog() {
+    if cfg!(miri) {
+        return;
+    }
+    let limit: u64 = std::env::var("VERIF_HANG_LIMIT").ok().and_then(|s| s.parse().ok()).unwrap_or(60);
+    std::thread::spawn(move || {
+        use std::sync::atomic::Ordering::Relaxed;
+        let mut last: Vec<(u64, std::time::Instant)> = (0..WD_SLOTS).map(|_| (0, std::time::Instant::now())).collect();
+        loop {
+            std::thread::sleep(std::time::Duration::from_millis(500));
+            for i in 0..WD_SLOTS {
+                let (seq, depth) = (WD[i].seq.load(Relaxed), WD[i].depth.load(Relaxed));
+                if seq != last[i].0 || depth == 0 {
+                    last[i] = (seq, std::time::Instant::now());
+                } else if last[i].1.elapsed().as_secs() >= limit {
+                    let site = WD[i].site.load(Relaxed);
+                    let loc = if site == 0 { "<unknown>".to_string() } else {
+                        // SAFETY-free: the value was produced from a &'static Location
+                        let l: &'static std::panic::Location<'static> = site_from(site);
+                        format!("{}:{}", l.file(), l.line())
+                    };
+                    eprintln!("HANG-DETECTED: the call into konst entered at harness/{loc} has not returned for {limit}s (the explored inputs are tiny: the call does not terminate)");
+                    std::process::exit(3);
+                }
+            }
+        }
+    });
+}
+
+static WD_SITES: std::sync::Mutex<Vec<&'static std::panic::Location<'static>>> = std::sync::Mutex::new(Vec::new());
+/// call sites are interned (index + 1) so that no pointer cast is needed
+fn site_id(l: &'static std::panic::Location<'static>) -> usize {
+    let key = l as *const std::panic::Location<'static> as usize;
+    let (k, id) = WD_LAST_SITE.with(|c| c.get());
+    if k == key {
+        return id; // the same call site as last time (the common case: a call in a loop)
+    }
+    let mut g = WD_SITES.lock().unwrap_or_else(|e| e.into_inner());
+    let id = match g.iter().position(|x| std::ptr::eq(*x, l)) {
+        Some(p) => p + 1,
+        None => {
+            g.push(l);
+            g.len()
+        }
+    };
+    WD_LAST_SITE.with(|c| c.set((key, id)));
+    id
+}
+fn site_from(id: usize) -> &'static std::panic::Location<'static> {
+    WD_SITES.lock().unwrap_or_else(|e| e.into_inner())[id - 1]
+}
+
 /// Ok(value) or Err(panic message)
+#[track_caller]
 pub fn catch<T>(f: impl FnOnce() -> T) -> Result<T, String> {
+    use std::sync::atomic::Ordering::Relaxed;
+    if cfg!(miri) {
+        return catch_inner(f);
+    }
+    let w = &WD[WD_SLOT.with(|s| *s)];
+    w.site.store(site_id(std::panic::Location::caller()), Relaxed);
+    w.depth.store(w.depth.load(Relaxed) + 1, Relaxed);
+    w.seq.store(w.seq.load(Relaxed) + 1, Relaxed);
+    let r = catch_inner(f);
+    w.depth.store(w.depth.load(Relaxed) - 1, Relaxed);
+    w.seq.store(w.seq.load(Relaxed) + 1, Relaxed);
+    r
+}
+
+fn catch_inner<T>(f: impl FnOnce() -> T) -> Result<T, String> {
     match catch_unwind(AssertUnwindSafe(f)) {
         Ok(v) => Ok(v),
         Err(e) => Err(if let Some(s) = e.downcast_ref::<&str>() {
@@ -535,6 +649,26 @@ pub fn char_set_desc(tier: Tier) -> &'static str {
         Tier::Quick => "every 1-/2-byte char, first/last char of every 3-/4-byte lead byte, surrogate-gap neighbours, stride 257 through the rest",
         Tier::Miri => "edges only",
     }
+}
+
+/// first and last char encoded with each lead byte at a class boundary (ASCII, 0xC2, 0xDF, 0xE0, 0xE1, 0xEC..=0xEF, 0xF0, 0xF1, 0xF3, 0xF4)
+pub fn lead_byte_edge_chars() -> Vec<char> {
+    let mut v: Vec<u32> = vec![0x00, 0x7F];
+    for lead in [0xC2u32, 0xDF] {
+        let lo = (lead & 0x1F) << 6;
+        v.extend([lo, lo + 0x3F]);
+    }
+    for lead in [0xE0u32, 0xE1, 0xEC, 0xED, 0xEE, 0xEF] {
+        let lo = ((lead & 0xF) << 12).max(0x800);
+        let hi = if lead == 0xED { 0xD7FF } else { ((lead & 0xF) << 12) + 0xFFF };
+        v.extend([lo, hi]);
+    }
+    for lead in [0xF0u32, 0xF1, 0xF3, 0xF4] {
+        let lo = ((lead & 7) << 18).max(0x10000);
+        let hi = (((lead & 7) << 18) + 0x3FFFF).min(0x10FFFF);
+        v.extend([lo, hi]);
+    }
+    v.into_iter().filter_map(char::from_u32).collect()
 }
 
 /// larger Miri bounds for the thorough tier (VERIF_MIRI_DEEP=1)
